@@ -316,7 +316,7 @@ def start_tasks(tier, role, progress=True):
         cfgs = [dict(nsenders=2, iters=2, max_len=[2, 1], timed=True, cut='each'),
                 dict(nsenders=2, iters=1, max_len=3, timed=True, cut='each'),
                 dict(nsenders=2, iters=1, max_len=2, timed=True, cut='any'),
-                dict(nsenders=3, iters=2, max_len=[1, 1], timed=True, cut='one'),
+                dict(nsenders=3, iters=2, max_len=[1, 0], timed=True, cut='one'),
                 dict(nsenders=3, iters=1, max_len=2, timed=True, cut='one'),
                 dict(nsenders=2, iters=2, max_len=[2, 1], timed=False, cut='each', adaptive=True, max_timeouts=2),
                 dict(nsenders=1, iters=2, max_len=[3, 2], timed=True, cut='any')]
